@@ -228,7 +228,9 @@ def run(ctx):
         done_w.add(f_.qname)
         cfw = ctx.cfg(f_)
         for wn in [n for n in cfw.nodes if node_assign_value(n, "_fetch_offset") is not None]:
-            og = value_origins(cfw, wn.id, at(ctx, f_, wn.id, node_assign_value(wn, "_fetch_offset")), params=f_.params)
+            # provenance: follow the locals back through their reaching definitions (not through an attribute that
+            # happens to hold the same value at that point), then name single-definition temporaries by what they hold
+            og = value_origins(cfw, wn.id, node_assign_value(wn, "_fetch_offset"), params=f_.params)
             texts = []
             for n_, e in (og or [(None, None)]):
                 if e is None:
@@ -236,7 +238,7 @@ def run(ctx):
                 elif n_ == cfw.entry.id and isinstance(e, ast.Name) and e.id in f_.params:
                     texts.append("<param:%d>" % f_.params.index(e.id))
                 else:
-                    texts.append(norm(e))
+                    texts.append(norm(expand(prog, f_, e, calls=True)))
             bad_forms = [t for t in texts if not any(_re.match(p_, t) for p_ in FORMS[f_.name])]
             r.check(not bad_forms, "%s#position-written(%s)" % (f_.qname, "|".join(sorted(set(texts)))[:60]),
                     "the fetch position is set from %s; %s may only store %s" % (bad_forms, f_.name, FORMS[f_.name]), where(f_, wn.stmt),
